@@ -43,17 +43,17 @@ TABLE = [
      "group members are enumerate() indices of the same Vec, which is not resized in between"),
     (r"utils::ensure_unique_type_paths", "unwrap", r"Option::expect", r"slice::last_mut\(.*",
      "types with an empty namespace were skipped when grouping, so the path has a last segment"),
-    (r"utils::ensure_unique_type_paths", "assert", r"Overflow:Add", r"user@",
+    (r"utils::ensure_unique_type_paths", "assert", r"Overflow:Add", r"user@.*",
      "the suffix counter is bounded by the number of same-path shape groups, far below i32::MAX for any registry that fits in memory"),
     (r"utils::types_equal_inner", "unwrap", r"Option::expect", r"PortableRegistry::resolve\(P\d,P\d\)",
      "W2: compared ids come from the registry itself (entry ids and ids mentioned inside entries)"),
-    (r"GenericsList::(index_for_type_id|index_for_type_name|new_inner)", "assert", r"Overflow:Add", r"user@",
+    (r"GenericsList::\w+", "assert", r"Overflow:Add", r"user@\(P0(@v1::Some\.0)?\.inner\.start_idx\+.*\)",
      "sums of lengths of in-memory vectors of generic parameters cannot overflow usize"),
     (r"description::type_name_with_type_params", "unwrap", r"Option::unwrap", r"PortableRegistry::resolve\(P1,.*",
      "W2: ids mentioned by a registry entry resolve (closed registry)"),
-    (r"formatting::format_type_description", "assert", r"Overflow:(Add|Sub)", r"user@",
+    (r"formatting::format_type_description", "assert", r"Overflow:(Add|Sub)", r"user@.*",
      "i32 indentation counter changes by one per bracket character: overflow needs 2^31 nested brackets"),
-    (r"format_type_description::scope_is_small", "assert", r"Overflow:(Add|Sub)", r"user@",
+    (r"format_type_description::scope_is_small", "assert", r"Overflow:(Add|Sub)", r"user@.*",
      "balance counter changes by at most one per peeked character and at most 32 characters are peeked"),
     (r"rust_value::ty_example", "may-panic-call", r"__private::mk_ident", r".*choose\(.*variants.*",
      "W3: variant names are identifiers"),
